@@ -513,4 +513,68 @@ def C19(ctx):
                                    "restricted_outcomes": len(loomrun.loom_keys(R[0]))})
 
 
-CHECKS = {"C19": C19, "C15": C15, "C13": C13, "C14": C14, "C10": C10, "C11": C11, "C01": C01, "C04": C04, "C05": C05, "C07": C07, "C08": C08, "C09": C09, "C02": C02, "C03": C03}
+def C12(ctx):
+    import re, random, subprocess, shutil, loomrun
+    ctx.assumptions += ["AtomicSeq.tla states the std-documented result of every operation in limb arithmetic; every replayed "
+                        "sequence is also run on std::sync::atomic (spec = std validates the spec; a disagreement there is a tool error)",
+                        "orderings do not change values; they are cycled so that every valid ordering is exercised",
+                        "compare_exchange_weak never fails spuriously on this platform (x86-64) nor in loom"]
+    work = os.path.join(ctx.work, "aseq")
+    os.makedirs(work, exist_ok=True)
+    shutil.copy(os.path.join(tlc.SPECS, "MCAtomicSeq.tla"), os.path.join(work, "MCAtomicSeq.tla"))
+    cfg = "AtomicSeq_d2.cfg" if ctx.tier == "quick" else "AtomicSeq_d3.cfg"
+    r = tlc.run_tlc(work, "MCAtomicSeq", os.path.join(tlc.SPECS, cfg), workers=ctx.tlc_workers, timeout=3000)
+    if "Model checking completed. No error has been found." not in r["text"]:
+        open(os.path.join(work, "tlc_error.log"), "w").write(re.sub(r'^<<"TR".*\n', "", r["text"], flags=re.M))
+        raise tlc.ToolError(f"AtomicSeq failed (see {work}/tlc_error.log)")
+    ctx.add_tlc(r, cfg)
+    graph = {}
+    ntr = 0
+    for m in re.finditer(r'^<<"TR", "(.*)">>$', r["text"], re.M):
+        t = json.loads(m.group(1).replace('\\"', '"'))
+        if t["t"] == "bool" and t["op"] == "with_mut":
+            continue            # loom's AtomicBool has no with_mut
+        graph.setdefault((t["t"], tuple(t["v"])), []).append(t)
+        ntr += 1
+    rng = random.Random(ctx.seed * 6007 + 47)
+    seqs = []
+    for (ty, v), trs in sorted(graph.items()):
+        for t in trs:
+            seqs.append({"t": ty, "init": list(v), "ops": [t]})
+    nwalk = 3000 if ctx.tier == "quick" else 60000
+    starts = sorted(graph)
+    for _ in range(nwalk):
+        ty, v = rng.choice(starts)
+        ops, cur = [], v
+        for _ in range(8):
+            trs = graph.get((ty, cur))
+            if not trs:
+                break
+            t = rng.choice(trs)
+            ops.append(t)
+            cur = tuple(t["n"])
+        if ops:
+            seqs.append({"t": ty, "init": list(v), "ops": ops})
+    inp, outp = os.path.join(work, "seqs.json"), os.path.join(work, "replay.json")
+    json.dump(seqs, open(inp, "w"))
+    p = subprocess.run([os.path.join(loomrun.HARNESS, "target/release/atomicseq"), inp, outp], capture_output=True, text=True)
+    if p.returncode != 0:
+        raise loomrun.ToolError("atomicseq failed: " + p.stderr[-800:])
+    rep = json.load(open(outp))
+    std_bad = [m for m in rep["mismatches"] if m["which"] == "std"]
+    if std_bad:
+        open(os.path.join(work, "spec_vs_std.json"), "w").write(json.dumps(std_bad[:20], indent=1))
+        raise tlc.ToolError(f"AtomicSeq.tla disagrees with std::sync::atomic ({len(std_bad)} cases, see {work}/spec_vs_std.json): the spec is wrong")
+    for m in rep["mismatches"]:
+        ctx.violation("value-mismatch", None, {k: m.get(k) for k in ("type", "op", "f", "a", "b", "before", "expected", "got", "what")}, {"seq": m.get("seq")})
+    ctx.cov["programs"] = len(seqs)
+    ctx.cov["evaluations"] = rep["ops_checked"]
+    ctx.cov["distinct_nontrivial"] = ntr
+    ctx.cov["rule"] = "distinct transitions (type, value before, operation, operands) enumerated by TLC; all are replayed once and chained into random walks of length <= 8"
+    ctx.cov["traces_validated_against_impl"] = rep["sequences"]
+    ctx.cov["types"] = sorted({k[0] for k in graph})
+    ctx.cov["ops"] = sorted({t["op"] for v in graph.values() for t in v})
+    ctx.cov["samples"] += [seqs[len(seqs) // 3], seqs[-1]]
+
+
+CHECKS = {"C12": C12, "C19": C19, "C15": C15, "C13": C13, "C14": C14, "C10": C10, "C11": C11, "C01": C01, "C04": C04, "C05": C05, "C07": C07, "C08": C08, "C09": C09, "C02": C02, "C03": C03}
